@@ -230,7 +230,7 @@ def run_case(ctx, idx):
             query_all(ctx, ds, "written", hist)
         for step in range(int(rng.integers(0, 4))):
             op = str(rng.choice(["join", "compress", "repack", "condense", "export", "basin",
-                                 "hierarchy"]))
+                                 "hierarchy", "superset"]))
             out = tmp / f"s{step}.rtdc"
             try:
                 if op == "join":
@@ -257,6 +257,27 @@ def run_case(ctx, idx):
                     cli.repack(path_in=cur, path_out=out)
                 elif op == "condense":
                     cli.condense(path_in=cur, path_out=out)
+                elif op == "superset":
+                    # referrer whose mapped basin repeats events (and may cover all of them)
+                    with dclab.new_dataset(cur) as ds:
+                        n0 = len(ds)
+                        cfgm = {sec: dict(ds.config[sec]) for sec in ("experiment", "imaging",
+                                                                     "setup") if sec in ds.config}
+                        rid = ds.get_measurement_identifier()
+                    if rng.random() < 0.6:
+                        bmap = np.sort(np.concatenate([np.arange(n0), rng.integers(
+                            0, n0, int(rng.integers(1, n0 + 3)))]))
+                    else:
+                        bmap = rng.integers(0, n0, int(rng.integers(1, 2 * n0 + 2)))
+                    if rid is not None:
+                        cfgm["experiment"]["run identifier"] = rid
+                    cfgm["experiment"]["event count"] = len(bmap)
+                    with dclab.RTDCWriter(out, mode="reset") as hw:
+                        hw.store_metadata(cfgm)
+                        hw.store_feature("userdef9", np.arange(len(bmap), dtype=float))
+                        hw.store_basin(basin_name="superset", basin_type="file",
+                                       basin_format="hdf5", basin_locs=[cur],
+                                       basin_map=bmap.astype(np.uint64), verify=False)
                 elif op in ("export", "basin"):
                     with dclab.new_dataset(cur) as ds:
                         m = rng.random(len(ds)) < 0.7
